@@ -609,7 +609,13 @@ class C05(Prop):
         shape = case["rs"]["shape"]
         if not shape or prod(shape) == 0:
             return []
+        if prod(shape) <= 48:
+            # small boxes: the model's layout-defined address is compared on EVERY index
+            return [list(i) for i in itertools.product(*[range(n) for n in shape])]
         pts = [[0] * len(shape), [n - 1 for n in shape], [n // 2 for n in shape]]
+        for d in range(len(shape)):
+            pts.append([(n - 1 if e == d else 0) for e, n in enumerate(shape)])
+            pts.append([(1 if e == d and n > 1 else 0) for e, n in enumerate(shape)])
         return pts
 
     def model(self, case, answers):
